@@ -97,11 +97,14 @@ Lemma so_expire_eq sd o s :
   so_expire cfg sd o s =
    let i := get_inst s sd o in
    let s1 := with_heap s sd (set_nth o (i_with_vals i (map (fun _ => None) (i_vals i))) (heap (cn s sd))) in
+   if i_expired i then (Ret tt, s1) else
    let s2 := with_heap s1 sd (set_nth o (i_with_expired (get_inst s1 sd o) true) (heap (cn s1 sd))) in
    cache_expire cfg sd (i_id i) s2.
 Proof.
   unfold so_expire, bind, gets. cbv beta iota zeta.
-  unfold upd_inst, modify. cbv beta iota zeta. reflexivity.
+  unfold upd_inst at 1. unfold modify. cbv beta iota zeta.
+  destruct (i_expired (get_inst s sd o)); [reflexivity|].
+  unfold bind, upd_inst, modify. cbv beta iota zeta. reflexivity.
 Qed.
 Lemma cache_expire_eq sd id s :
   cache_expire cfg sd id s =
@@ -131,6 +134,22 @@ Proof.
     set (s1 := with_heap s sd h1).
     assert (G1 : get_inst s1 sd o = i1).
     { unfold s1. rewrite get_inst_with_heap. unfold h1. apply nth_set_nth_same. exact Ho. }
+    destruct (i_expired i) eqn:Ee.
+    { (* flagged already: only the attributes go *)
+      assert (G0 : forall o', get_inst s1 sd o' = if Nat.eqb o' o then i1 else get_inst s sd o').
+      { intros o'. unfold s1. rewrite get_inst_with_heap. unfold h1. destruct (Nat.eqb o' o) eqn:E.
+        - apply Nat.eqb_eq in E. subst o'. apply nth_set_nth_same. exact Ho.
+        - apply Nat.eqb_neq in E. rewrite nth_set_nth_other by congruence. reflexivity. }
+      exists s1. split; [reflexivity|]. split; [|split].
+      - unfold Rexp. unfold s1. repeat (split; [destruct sd; reflexivity|]). split; [|split; [|split]].
+        + rewrite heap_with_heap, side_eqb_refl. unfold h1. apply length_set_nth.
+        + intros o'. fold s1. rewrite G0. destruct (Nat.eqb o' o) eqn:E; [|auto]. apply Nat.eqb_eq in E. subst o'. split; reflexivity.
+        + intros o'. fold s1. rewrite G0. destruct (Nat.eqb o' o) eqn:E; [|auto]. apply Nat.eqb_eq in E. subst o'. right.
+          split; [unfold no_vals, i1; cbn; apply forallb_none_map|exact Ee].
+        + rewrite cch_with_heap. auto.
+      - intros o' Hne. rewrite G0. apply Nat.eqb_neq in Hne. rewrite Hne. reflexivity.
+      - rewrite G1. split; [unfold no_vals, i1; cbn; apply forallb_none_map|]. split; [exact Ee|].
+        right. unfold s1. rewrite cch_with_heap. auto. }
     rewrite G1.
     set (i2 := i_with_expired i1 true).
     assert (Hh1 : heap (cn s1 sd) = h1) by (unfold s1; rewrite heap_with_heap, side_eqb_refl; reflexivity).
